@@ -1,14 +1,17 @@
 """C17 — parameter-map bookkeeping: file round trip (load_subs) and inverse-pair cancellation (simplify_inv_subs)."""
-import csv, itertools, json, math, os, pickle, re, shutil
+import contextlib, csv, io, itertools, json, math, os, pickle, re, shutil
 import common, extract, mpirun
 
-LEAN_MODULE = "ESRVerif.Props.C17"
+LEAN_MODULE = ["ESRVerif.Props.C17", "ESRVerif.Props.C17c"]
 LEVEL = "proof"
 LEVEL_TEXT = ("Lean theorems over the hand model of load_subs / simplify_inv_subs / get_all_dup: the quote insertion by four "
               "str.replace calls is lossless for every separator-free printed term (unbounded), rows are preserved for any "
               "rank count (via C14 tiling), every all_dup element is self-inverse, cancellation preserves the composition of "
               "chains of any length; sympy's printer/parser on the template table (4 parameters, |n| <= 6) is modelled and "
-              "tied by exhaustive correspondence")
+              "tied by exhaustive correspondence; the exception structure of load_subs' per-row conversion (time-limited or not, what a "
+              "TimeoutException handler restores the row from, the in-place writes) is regenerated and the conversion of a row is "
+              "proved atomic under a timeout unless it is restored from an alias of the list being rewritten; on the real code a "
+              "genuine SIGALRM is injected at every line of load_subs at which a time limit of the code under test is active")
 TECHNIQUE = "Lean 4 theorem over a model of the code + extracted tables + checked model/code correspondence"
 RULE = ("one evaluation = one template string compared, one cell loaded on one rank count, or one chain cancelled; "
         "distinct non-trivial = distinct (template string) with a non-identity value, distinct (file, P) with P>=2, "
@@ -18,7 +21,12 @@ EXPLANATION = ("load_dump / rows_preserved / dup_involutive / cancel_preserves p
                "re-evaluated), its load with the real load_subs on 1-5 ranks, its cancellation with the real "
                "simplify_inv_subs on all chains up to the bound; an independent oracle checks the property itself on the "
                "real outputs (objects equal, rows aligned, composition numerically unchanged), including the chains [d, d] and "
-               "[d, d, d] for every element d of the real get_all_dup(k), k <= 5 (a non-involutive element is a failing input)")
+               "[d, d, d] for every element d of the real get_all_dup(k), k <= 5 (a non-involutive element is a failing input); "
+               "C17c: loadRow_atomic / alias_restore_is_not_atomic over the regenerated exception structure of load_subs' row loop, and "
+               "a fault phase (harness/inject.py) that discovers at run time whether a time limit is active inside load_subs / "
+               "simplify_inv_subs / get_all_dup and, if so, delivers a genuine SIGALRM at every (line, occurrence <= 3) site, one or two "
+               "per call, on 1-5 ranks and both use_sympy modes: every row must come back as the written mapping or exactly as its "
+               "original text (time_limited_sites: 0 and a no-op on a tree without such a region)")
 TRUSTED = ["hand model ESRVerif/Model/Subs.lean of sympy's str() and sympify on the template language (tied by exhaustive "
            "correspondence for 4 parameters, |n| <= 6, rationals with denominator <= 4)",
            "ast.literal_eval and csv reader/writer modelled on the emitted language only (dict of single-quoted strings; "
@@ -41,7 +49,15 @@ TRUSTED = ["hand model ESRVerif/Model/Subs.lean of sympy's str() and sympify on 
            "translator's symbolic reading of load_subs' per-cell statements: the cell text is followed through `.replace` "
            "chains on the cell or on locals (row alias, enumerate, unrolled literal pairs), the nan test and literal_eval "
            "must be applied to the same fully quoted text, keys are sympified before values, `str == literal` is read as "
-           "symmetric; the read / split / scatter / gather / chain / bcast statements are matched up to renaming of locals"]
+           "symmetric; the read / split / scatter / gather / chain / bcast statements are matched up to renaming of locals",
+           "translator's reading of the exception structure of the row loop: `try` / `with time_limit(..)` around the per-cell loop "
+           "in either order, one `except TimeoutException` handler of prints and one `B[i] = name` / `row[:] = name` restore; a name "
+           "bound to list(row) / row[:] / row.copy() / copy.copy / copy.deepcopy / [x for x in row] BEFORE the try/with is a snapshot, "
+           "a name bound to the row itself is an alias; anything else is an ExtractError",
+           "harness/inject.py: a time limit of the code under test is active iff the SIGALRM handler is a Python function compiled "
+           "from the staged tree and ITIMER_REAL is pending (signal.alarm and ITIMER_REAL are one timer on Linux); self-tested on "
+           "every run against the staged time_limit; fault sites are lines x occurrence (<= 3, plus random later occurrences), not "
+           "bytecode offsets"]
 ASSUMPTIONS = ["real/rational semantics: -(-x)=x and 1/(1/x)=x for x != 0 (floating-point rounding not modelled)",
                "ranks are OS processes under the stand-in hub (pickle on every collective), not a real MPI progress engine"]
 # tables whose committed version may stand in as a hand-written model when the translator cannot read the source;
@@ -49,7 +65,10 @@ ASSUMPTIONS = ["real/rational semantics: -(-x)=x and 1/(1/x)=x for x != 0 (float
 FALLBACK = {'Subs': 'model executable vs real code on what the table claims: get_all_dup(k) for k = 0..5 list-equal to allDup k; real load_subs on '
                     '1-5 (deep: 8) ranks cell-for-cell equal to loadFile (replace sequence, nan literal, delimiter, rank blocks); real '
                     'simplify_inv_subs on all chains up to the bound; plus the oracle that every element of the real get_all_dup cancels '
-                    'soundly.  NOT covered by a dynamic tie and therefore kept strict: the template table of sympy_simplify'}
+                    'soundly; a genuine SIGALRM injected at every line of load_subs (simplify_inv_subs, get_all_dup) at which a time limit '
+                    'of the code under test is active at run time (sites discovered by harness/inject.py, none on a tree without such a '
+                    'region): every row read back after a timeout is the written mapping or exactly its original text.  NOT covered by a '
+                    'dynamic tie and therefore kept strict: the template table of sympy_simplify'}
 MODELLED = ["simplifier.py:get_all_dup", "simplifier.py:simplify_inv_subs", "simplifier.py:load_subs",
             "simplifier.py:convert_params"]
 
@@ -322,9 +341,10 @@ def canon_rows(res):
     return "".join(out) + "."
 
 
-def run_load(ctx, files, P, tag):
+def run_load(ctx, files, P, tag, jobs=None):
     """real load_subs on P ranks for every (path, k, use_sympy); returns per job the list of per-rank results"""
-    jobs = [dict(file=f, k=K, use_sympy=m) for f in files for m in (True, False)]
+    if jobs is None:
+        jobs = [dict(file=f, k=K, use_sympy=m) for f in files for m in (True, False)]
     d = os.path.join(ctx.tmp, "c17run_%s_%d" % (tag, P))
     os.makedirs(d, exist_ok=True)
     jf = os.path.join(d, "jobs.json")
@@ -475,6 +495,216 @@ def _corr_load(ctx, rec, all_a, deep):
     if not_run:
         ctx.disagree("corr:load_subs", "%d load jobs not run because an earlier job of the same launch raised" % not_run)
     return dict(load_ops=len(ops), load_bad=n_bad, cells=n_cells)
+
+
+# --------------------------------------------------------------------------------------------------
+# (b') load_subs under a timeout wherever the code under test installs a time limit (harness/inject.py)
+# --------------------------------------------------------------------------------------------------
+
+WATCHED = ["load_subs", "simplify_inv_subs", "get_all_dup"]
+FAULT_BOUND = 3           # occurrences of a line (with a time limit active) that are fault sites
+
+
+def _quoted(s):
+    return s.replace("{", "{'").replace("}", "'}").replace(", ", "', '").replace(": ", "': '")
+
+
+def judge_faulted(ctx, rows_s, rows_o, use_sympy, got, all_a):
+    """The property after a call in which a time limit struck: every row read back is EITHER the mapping that was written (the
+    oracle of check_loaded: same keys, equivalent values, nan stays nan, row i stays row i) OR exactly the original text of that row
+    (left unconverted); a mixture is a violation.  Returns ([(row index | None, message)], #rows left as their original text)."""
+    bad, raw_rows = [], 0
+    if not isinstance(got, list) or len(got) != len(rows_s):
+        return [(None, "%d rows written, %r read back" % (len(rows_s), len(got) if isinstance(got, list) else got))], 0
+    for i, (ws, wo, lr) in enumerate(zip(rows_s, rows_o, got)):
+        if not isinstance(lr, list) or len(lr) != len(ws):
+            bad.append((i, "row %d: %d steps written %r, read back %r" % (i, len(ws), ws, lr)))
+            continue
+        st = []
+        for s, o, l in zip(ws, wo, lr):
+            why = same_entry(o, l, all_a, ctx.rng) if use_sympy else same_entry_str(s, l, all_a, ctx.rng)
+            if not why:
+                st.append("converted")
+            elif isinstance(l, str) and l == s:
+                st.append("raw text")
+            elif isinstance(l, str) and l == _quoted(s):
+                st.append("quote-inserted text %r" % l)
+            else:
+                st.append("read back as %r (%s)" % (l, why))
+        if all(x == "converted" for x in st):
+            continue
+        if all(isinstance(l, str) and l == s for s, l in zip(ws, lr)):
+            raw_rows += 1               # the whole row is exactly the text that was written: left unconverted
+            continue
+        bad.append((i, "row %d written %r came back MIXED: %s" % (i, ws, "; ".join("step %d %s" % (c, x) for c, x in enumerate(st)))))
+    return bad, raw_rows
+
+
+def _fault_files(ctx, rec):
+    """every recordable string in a chain of <= 4 steps, a few rows per file; plus markers and empty rows"""
+    distinct = {}
+    for kind, fam, j, p, q, obj, s in rec:
+        distinct.setdefault(s, obj)
+    strings = list(distinct)
+    ctx.rng.shuffle(strings)
+    rows, k = [], 0
+    while k < len(strings):
+        n = ctx.rng.choice((2, 3, 3, 4, 4))
+        rows.append(strings[k:k + n]); k += n
+    files = []
+    per = 4
+    for f in range(0, len(rows), per):
+        chunk = [list(r) for r in rows[f:f + per]]
+        if ctx.rng.random() < 0.5:
+            chunk.insert(ctx.rng.randrange(len(chunk) + 1), [])
+        if ctx.rng.random() < 0.3:
+            r = ctx.rng.choice([c for c in chunk if c])
+            r.insert(ctx.rng.randrange(len(r) + 1), "nan")
+        path = os.path.join(ctx.tmp, "c17fault", "compl_%d" % (20 + len(files)), "inv_subs_%d.txt" % (20 + len(files)))
+        write_file(path, chunk)
+        files.append((path, chunk, [[distinct[s] for s in row] for row in chunk]))
+    return files
+
+
+def _fault_replay(rows_s, use_sympy, P, faults):
+    return dict(kind="fault", P=P, k=K, use_sympy=use_sympy, rows=rows_s, faults=[list(f) for f in faults])
+
+
+def _fault_phase(ctx, rec, all_a, deep):
+    """fire a genuine SIGALRM at every site of load_subs (simplify_inv_subs, get_all_dup) at which the code under test has a time
+    limit active; one fault per run, a few two-fault runs, 1 rank in-process and 2-5 ranks through the worker"""
+    import esr.generation.simplifier as S
+    import inject
+    st = dict(watched=list(WATCHED), time_limited_sites=0, sites={}, runs=0, two_fault_runs=0, multi_rank_runs=0, fired=0,
+              rows_left_unconverted=0, timeouts_propagated=0, violations=0, bound=FAULT_BOUND)
+    files = _fault_files(ctx, rec)
+    inj = inject.Injector(S, WATCHED, root=ctx.stage, bound=FAULT_BOUND)
+    if inj.missing:
+        st["missing_functions"] = inj.missing
+    sites = {}
+    for m in (True, False):
+        sites[m] = [s for s in inj.record(S.load_subs, files[0][0], K, use_sympy=m) if s[0] == "load_subs"]
+        st["sites"]["load_subs,use_sympy=%s" % m] = len(sites[m])
+    # the two pure helpers: any chain / k will do to see whether a time limit is ever active inside them
+    dup = list(S.get_all_dup(2))
+    other = inj.record(lambda: (S.get_all_dup(3), S.simplify_inv_subs([dup[0], dup[0], dup[1]], dup)))
+    st["sites"]["get_all_dup+simplify_inv_subs"] = len(other)
+    # self-test of the discovery on this tree's own time_limit: the same helper called inside a `with time_limit` must show sites
+    def _under_limit():
+        with S.time_limit(30):
+            return S.get_all_dup(2)
+    try:
+        probe = inj.record(_under_limit)
+    except Exception as e:
+        probe = []
+        ctx.disagree("fault:selftest", "time_limit of the staged simplifier could not be entered: %r" % (e,))
+    st["selftest_sites_under_time_limit"] = len(probe)
+    if not probe:
+        ctx.disagree("fault:selftest", "no line of get_all_dup was seen with a time limit active inside `with time_limit(30)`: "
+                                       "the run-time discovery of time-limited regions does not work on this tree")
+    st["lines_watched_last_call"] = inj.lines_seen
+    st["time_limited_sites"] = len(sites[True]) + len(sites[False]) + len(other)
+    if other:
+        ctx.disagree("fault:sites", "a time limit is active inside get_all_dup / simplify_inv_subs (%r): no fault oracle for these yet" % other[:3])
+    if not (sites[True] or sites[False]):
+        return st
+    seen_keys = set()
+
+    def judge(rows_s, rows_o, m, P, faults, res, fired):
+        st["runs"] += 1
+        st["fired"] += len(fired)
+        ctx.case(("fault", tuple(map(tuple, faults)), m, P, tuple(map(tuple, rows_s))), nontrivial=bool(fired), n=max(1, sum(len(r) for r in rows_s)))
+        if res[0] == "raise":
+            if type(res[1]).__name__ == "TimeoutException" or "TimeoutException" in str(res[1]):
+                st["timeouts_propagated"] += 1        # no handler: the call ends, nothing wrong is read back
+                return
+            bad = [(None, "load_subs raised %r" % (res[1],))]
+        else:
+            bad, raw = judge_faulted(ctx, rows_s, rows_o, m, res[1], all_a)
+            st["rows_left_unconverted"] += raw
+        for row, msg in bad:
+            st["violations"] += 1
+            key = "load_subs:timeout:%s" % ",".join("line%d" % f[1] for f in faults)
+            if key in seen_keys and st["violations"] > 12:
+                continue
+            seen_keys.add(key)
+            rs = [rows_s[row]] if (row is not None and P == 1 and _fault_alone_fails(ctx, S, inj, rows_s[row], rows_o[row], m, faults, all_a)) else rows_s
+            ctx.fail(key, "timeout at %s (use_sympy=%s, P=%d): %s" % (
+                " + ".join("%s:%d occurrence %d" % tuple(f) for f in faults), m, P, msg), _fault_replay(rs, m, P, faults))
+
+    # one fault per run, sites dealt round-robin over the files (every template string is in some file)
+    fi = 0
+    plans = []
+    for m in (True, False):
+        # later occurrences first: they strike in a later step of a row, after earlier steps have been converted
+        for s in sorted(sites[m], key=lambda x: (-x[2], x[1])):
+            plans.append((m, [s]))
+    for m in (True, False):                     # a few two-fault runs: two different rows of the same call
+        ss = sites[m]
+        for _ in range(6 if not deep else 20):
+            if len(ss) >= 2:
+                a, b = ctx.rng.sample(ss, 2)
+                plans.append((m, [a, b]))
+    reps = 1 if not deep else 3
+    for m, faults in plans * reps:
+        path, rows_s, rows_o = files[fi % len(files)]; fi += 1
+        with contextlib.redirect_stdout(io.StringIO()):
+            res, fired = inj.inject(faults, S.load_subs, path, K, use_sympy=m)
+        if len(faults) == 2:
+            st["two_fault_runs"] += 1
+        judge(rows_s, rows_o, m, 1, faults, res, fired)
+    # every file once more with a random site (so that every recordable string is converted under a fault somewhere)
+    for path, rows_s, rows_o in files:
+        m = ctx.rng.random() < 0.5
+        if not sites[m]:
+            m = not m
+        s = ctx.rng.choice(sites[m])
+        s = (s[0], s[1], ctx.rng.randint(1, max(1, sum(len(r) for r in rows_s))))
+        with contextlib.redirect_stdout(io.StringIO()):
+            res, fired = inj.inject([s], S.load_subs, path, K, use_sympy=m)
+        judge(rows_s, rows_o, m, 1, [s], res, fired)
+    # 2-5 ranks: the fault strikes on every rank, in that rank's block
+    for P in [2, 3, 4, 5]:
+        jobs, meta = [], []
+        for _ in range(4 if not deep else 10):
+            path, rows_s, rows_o = files[fi % len(files)]; fi += 1
+            m = ctx.rng.random() < 0.5
+            if not sites[m]:
+                m = not m
+            s = ctx.rng.choice(sites[m])
+            jobs.append(dict(file=path, k=K, use_sympy=m, faults=[list(s)], root=ctx.stage))
+            meta.append((rows_s, rows_o, m, [s]))
+        jobs, per_rank, res, log = run_load(ctx, None, P, "fault", jobs=jobs)
+        for ji, (rows_s, rows_o, m, faults) in enumerate(meta):
+            results = [pr[ji] if pr is not None and len(pr) > ji else None for pr in per_rank]
+            if any(r is None for r in results):
+                if ji == 0 or all(r is None for r in results):
+                    continue
+            r0 = results[0]
+            if r0 is None:
+                continue
+            st["multi_rank_runs"] += 1
+            fired = [f for r in results if r is not None and len(r) > 2 for f in r[2]]
+            if r0[0] == "ok":
+                for r, rr in enumerate(results[1:], 1):
+                    if rr is not None and rr[0] == "ok" and canon_rows(rr[1]) != canon_rows(r0[1]):
+                        ctx.fail("load_subs:timeout:ranks-differ", "rank %d of %d got different substitutions than rank 0 after a timeout at %r" % (r, P, faults),
+                                 _fault_replay(rows_s, m, P, faults))
+                judge(rows_s, rows_o, m, P, faults, ("ok", r0[1]), fired)
+            else:
+                judge(rows_s, rows_o, m, P, faults, ("raise", r0[1]), fired)
+    return st
+
+
+def _fault_alone_fails(ctx, S, inj, row_s, row_o, use_sympy, faults, all_a):
+    """does the row alone, on one rank, with the fault at the same line (any occurrence up to its length) show the mixture?"""
+    path = os.path.join(ctx.tmp, "c17fault_one", "compl_1", "inv_subs_1.txt")
+    write_file(path, [row_s])
+    with contextlib.redirect_stdout(io.StringIO()):
+        res, fired = inj.inject(faults, S.load_subs, path, K, use_sympy=use_sympy)
+    if res[0] != "ok":
+        return False
+    return bool(judge_faulted(ctx, [row_s], [row_o], use_sympy, res[1], all_a)[0])
 
 
 # --------------------------------------------------------------------------------------------------
@@ -688,6 +918,7 @@ def run(ctx):
     a, dups = _corr_print(ctx, rec, all_a)
     ctx.extra["all_dup_oracle"] = _oracle_dups(ctx, dups)
     b = _corr_load(ctx, rec, all_a, deep)
+    ctx.extra["timeout_faults"] = _fault_phase(ctx, rec, all_a, deep)
     c = _corr_cancel(ctx, rec, deep)
     ctx.extra["corr_obligations"] = 5
     ctx.extra["corr_discharged"] = (int(a["strings_bad"] == 0 and not unknown) + int(a["alldup_bad"] == 0) + int(a["eval_bad"] == 0)
@@ -736,5 +967,38 @@ def replay(ctx, data):
             print("  FAIL:", m)
         if not bad:
             print("  read back equal")
+        return not bad
+    if rp["kind"] == "fault":
+        import inject
+        all_a = _symbols(rp["k"])
+        rows_s = rp["rows"]
+        rows_o = [[parse_dict_string(s, all_a) for s in row] for row in rows_s]
+        path = os.path.join(ctx.tmp, "c17replay", "compl_1", "inv_subs_1.txt")
+        write_file(path, rows_s)
+        P, m, faults = rp["P"], rp["use_sympy"], [tuple(f) for f in rp["faults"]]
+        print("load_subs(use_sympy=%s) on %d rank(s), a genuine SIGALRM delivered at %s (n-th time that line of load_subs runs with a "
+              "time limit of the code under test active); file rows:" % (m, P, ", ".join("line %d occurrence %d" % (f[1], f[2]) for f in faults)))
+        for r in rows_s[:8]:
+            print("   ", r)
+        if P == 1:
+            inj = inject.Injector(S, ["load_subs"], root=ctx.stage)
+            res, fired = inj.inject(faults, S.load_subs, path, rp["k"], use_sympy=m)
+            if res[0] == "raise":
+                res = ("raise", repr(res[1]))
+        else:
+            jobs, per_rank, rr, log = run_load(ctx, None, P, "replayf", jobs=[dict(file=path, k=rp["k"], use_sympy=m, faults=[list(f) for f in faults], root=ctx.stage)])
+            r0 = per_rank[0][0] if per_rank[0] else ("raise", "rank 0 wrote no result: %s" % log[-300:])
+            res, fired = (r0[0], r0[1]), (r0[2] if len(r0) > 2 else [])
+        print("  fired at:", [list(f) for f in fired])
+        if res[0] == "raise":
+            print("  load_subs raised", res[1])
+            return "TimeoutException" in str(res[1])
+        bad, raw = judge_faulted(ctx, rows_s, rows_o, m, res[1], all_a)
+        for i, lr in enumerate(res[1][:8]):
+            print("  read back row %d: %r" % (i, lr))
+        for row, msg in bad[:5]:
+            print("  FAIL:", msg)
+        if not bad:
+            print("  every row is the written mapping or exactly its original text (%d left unconverted)" % raw)
         return not bad
     return True
